@@ -4,7 +4,7 @@ import json, subprocess
 props = [json.loads(l)['id'] for l in open('/verif/properties.jsonl')]
 
 COMMON_NOTE = ("Trusted: spec library /verif/spec (seccomp_data layout, cBPF semantics S-fwd/S-std, policy meaning), govc itself, SMT solvers; "
-  "meta-theory axiom MT-3 (block composition); the contract of Program.Assemble (label resolution, property C06) is used, not re-proved, here; "
+  "meta-theory axioms MT-3 (block composition) and MT-R (a resolved program that simulates the label-level program returns what its single-pass interpretation returns; assumes every label is set once); the contract of Program.Assemble (label resolution) is proved under C06 and used here; "
   "int is 64-bit, slice lengths < 2^56, label counters < 2^62; nativeEndian is one of the two byte orders.")
 TECH = "contract-based deductive verification: VCs generated from the Go AST of the real functions (contracts in //@ files), loop invariants, ghost cBPF interpreter state, lemmas; discharged by z3/cvc5"
 KNOTE = "Trusted: the kernel/runtime model of /verif/spec/kernel.spec (K-prctl, K-seccomp-filter incl. the refused-thread-sync return value and atomic TSYNC, K-seccomp-strict, R-sched: thread may change before any system call unless LockOSThread); x/net bpf.Assemble contract (one raw instruction per instruction, relation `encodes` uninterpreted); value model of pointers (the hand-over states the pointee of SockFprog.Filter equals sockFilter[0], not pointer identity); SYS_SECCOMP=317 / SYS_PRCTL=157 (linux/amd64 build context)."
@@ -24,6 +24,9 @@ CLAIMED = {
  "C05": dict(
    text="Proof: every program returned with nil error and <= 4096 instructions satisfies kernelAccepts (transcription of bpf_check_classic + seccomp_check_filter for the emitted kinds: non-empty, last insn ret, aligned in-record 32-bit loads, all jumps land inside); builder invariant progOK carried through every primitive; return values confined to the ghost set of values passed to Ret (group level).",
    note=COMMON_NOTE+" Encodability by bpf.Assemble is assumed from the instruction kinds (x/net contract). The policy-level closed return set is proved at group level (retsInSet) and for the x32/default returns by the prologue hints; the quantified union over groups (retsActUpTo) is an invariant of Policy.Assemble.", technique=TECH, ref="7 C05"),
+ "C06": dict(
+   text="Proof for all label-level programs satisfying the builder's representation invariant (recorded jumps = the conditional jumps, in order; label positions inside the program), any number of instructions, jumps and labels, any distances: Program.Assemble establishes the simulation relation `sim` between the label-level program and the resolved one - a strictly increasing ghost position map, every other instruction in place and directly followed by its successor, every conditional jump keeps its test and each branch lands on the moved position of the first position of its label behind the jump, on a copy of the return found there, or on an unconditional jump to it - by a loop invariant over the jumps resolved so far; destination, computeSkipN, insertBridge (slice insertion, bridge selection, 32-bit skip) and updateIndices (three loops incl. a map range writing through the map) are verified against functional contracts; skips fit 8 bits (automatic truncation obligations); the result is closed (all jumps land inside) with returns from the builder's set; the representation invariant is established by NewProgram and preserved by every primitive and carried by the callers' loop invariants. The meta-theorem MT-R turns `sim` into run(result) == outcome of the single-pass interpretation.",
+   note=COMMON_NOTE+" MT-R is proved on paper (induction on the execution), not by the solver; its hypothesis that the ghost interpreter state G mirrors the structure is by construction of the primitives' ghost statements (they read what the code appended), its hypothesis that each label is set at most once holds for every caller in the package by inspection and is not checked. Programs below 2^32 - 2 instructions (explicit assume in the loop: 64 GiB of interface values). That a valid policy never makes Assemble fail (no backward jump, no useless jump) is not proved.", technique=TECH+"; ghost position map and witness arrays", ref="7 C06"),
  "C07": dict(
    text="Proof of (a) no panic: all automatically generated safety obligations (index, nil map, nil deref, type assertion, overflow, truncation) on the compile path for arbitrary policy values; (b) error => no program; (c) each listed defect => error (Policy.Validate, toSyscallsWithConditions, ArgumentConditions.Validate incl. unknown operations, GetInfo). Clause (d) 'valid policies are accepted' is NOT proved (needs Program.Assemble's no-error clause); the witness family exercises it.",
    note=COMMON_NOTE+" Groups' unexported arch field is assumed nil (policies constructed through the Go API).", technique=TECH, ref="7 C07"),
